@@ -1429,6 +1429,7 @@ PTARGETS += [
          recv={"self.atomic_iter": "Iter", "self.buffered_iter": "BufIter"}, mutable=["next"]),
     dict(ns="ChunkIt", file="iter/buffered/iter.rs", impl=r"Iterator for BufferedIter<'a, T>", fns=["next"], self_ty="BufferedIter", mutable=["next"],
          lets={"next": "Option Nat"}),
+    dict(ns="ChunkIt", file="iter/buffered/iter.rs", impl=r"ExactSizeIterator for BufferedIter<'a, T>", fns=["len"], self_ty="BufferedIter"),
 ]
 # cloned() / copied() over the wrapper (an iterator of references): every function forwards to the wrapper's
 for (A, f, bf, big) in (("ClonedI", "iter/cloned.rs", "iter/buffered/cloned_buffered_chunk.rs", "ClonedBufferedChunk"),
